@@ -246,6 +246,15 @@ Definition run_hcase (k : hcase) : hverdict :=
 
 Inductive tcase := TSide (k : case) | THdr (k : hcase).
 
+(* the model's verdict on one case, and on a sequence of cases verified one after the other
+   by the same process: verification has no state, the verdicts are those of the single cases *)
+Definition tcase_verdict (t : tcase) : N :=
+  match t with
+  | TSide k => verdict_code (run_case k)
+  | THdr k => hverdict_code (run_hcase k)
+  end.
+Definition history_verdicts (l : list tcase) : list N := map tcase_verdict l.
+
 Definition tcase_ok (t : tcase) : bool :=
   match t with
   | TSide k => case_ok k
